@@ -105,6 +105,20 @@ pub fn suite_encode(out: &mut Out, tier: &str, rng: &mut Rng) {
             }
         }
     }
+    // sizes around 2^16 and 2^17: a length computed or compared in 16 bits would wrap here
+    let wraps: &[usize] = if tier == "thorough" {
+        &[65529, 65530, 65531, 65535, 65536, 65600, 66553, 66554, 131066, 131100]
+    } else {
+        &[65530, 65600, 66553]
+    };
+    for (i, &n) in wraps.iter().enumerate() {
+        let v = match i % 3 {
+            0 => host(n, rng),
+            1 => json!({"k": "Hidden", "f": [9, bytes_json(&rng.bytes(n))]}),
+            _ => json!({"k": "VendorName", "f": [bytes_json(&gen_utf8(rng, n))]}),
+        };
+        out.emit(json!({"op": "encode", "kind": "avp", "v": v, "prefix": if i % 2 == 0 { json!([]) } else { json!([1, 2, 3]) }, "wr": "vec"}));
+    }
     // result code with a long message, q931 with long advisory: 2+2+n, 3+n
     for n in [1012usize, 1013, 1014, 1015] {
         let v = json!({"k": "ResultCode", "f": [1, ["Generic"], [bytes_json(&gen_utf8(rng, n))]]});
@@ -991,4 +1005,67 @@ pub fn suite_ctl_records(out: &mut Out, tier: &str, rng: &mut Rng) {
         let b = enc_control_raw(flag_word(true, true, true, false, false, 2), None, [1, 2, 3, 4], &body);
         out.emit(json!({"op": "decode", "in": bytes_json(&b), "opts": gen_opts(rng), "entry": "validate", "rdr": "slice"}));
     }
+}
+
+
+/// large inputs: sums of wire-supplied 16-bit quantities near 65 535 with the octets really present
+pub fn suite_decode_big(out: &mut Out, tier: &str, rng: &mut Rng) {
+    let strict = json!([true, true, true]);
+    // data messages whose offset pad is nearly 64 KiB (and is really there)
+    let osizes: Vec<u16> = if tier == "thorough" {
+        (65500..=65535u32).map(|x| x as u16).collect()
+    } else {
+        vec![65519, 65521, 65522, 65525, 65526, 65529, 65530, 65535]
+    };
+    for (i, &osz) in osizes.iter().enumerate() {
+        for has_len in [false, true] {
+            let nsnr = if i % 2 == 0 { Some((rng.u16(), rng.u16())) } else { None };
+            let nd = rng.range(1, 9) as usize;
+            let pad = rng.bytes(osz as usize);
+            let data = rng.bytes(nd);
+            let hdr = 2 + if has_len { 2 } else { 0 } + 4 + if nsnr.is_some() { 4 } else { 0 } + 2;
+            let total = hdr + osz as usize + nd;
+            // Length cannot express totals above 65 535: then it is simply a (too small) wrong value
+            let length = if has_len { Some((total & 0xffff) as u16) } else { None };
+            let b = enc_data_raw(0, 2, rng.bool(), length, rng.u16(), rng.u16(), nsnr, Some((osz, pad)), &data);
+            out.emit(json!({"op": "decode", "in": bytes_json(&b), "opts": strict, "entry": "validate", "rdr": "slice"}));
+        }
+    }
+    // data messages with Length near 65 535, exact / one more than present / one less
+    for delta in [-1i64, 0, 1] {
+        for nd in [65520usize, 65527, 65529] {
+            let data = rng.bytes(nd);
+            let total = 2 + 2 + 4 + nd;
+            let b = enc_data_raw(0, 2, false, Some(((total as i64 + delta) as usize & 0xffff) as u16), 1, 2, None, None, &data);
+            out.emit(json!({"op": "decode", "in": bytes_json(&b), "opts": strict, "entry": "validate", "rdr": "slice"}));
+        }
+    }
+    // control messages of 65 533..65 535 octets made of maximum-size AVPs; Length against the octets present
+    for total in [65533usize, 65534, 65535] {
+        let mut body = enc_avp(&gen_message_type(rng));
+        while body.len() + 1023 <= total - 12 - 7 {
+            body.extend(enc_avp(&json!({"k": "HostName", "f": [bytes_json(&rng.bytes(1017))]})));
+        }
+        let left = total - 12 - body.len();
+        if left >= 7 {
+            body.extend(enc_avp(&json!({"k": "Challenge", "f": [bytes_json(&rng.bytes(left - 6))]})));
+        }
+        let ok = enc_control_raw(flag_word(true, true, true, false, false, 2), None, [1, 2, 3, 4], &body);
+        out.emit(json!({"op": "decode", "in": bytes_json(&ok), "opts": strict, "entry": "validate", "rdr": "slice"}));
+        let mut short = ok.clone();
+        short.truncate(ok.len() - 1);
+        out.emit(json!({"op": "decode", "in": bytes_json(&short), "opts": strict, "entry": "validate", "rdr": "slice"}));
+        let mut long = ok.clone();
+        long.extend_from_slice(&[7, 7, 7]);
+        out.emit(json!({"op": "decode_suffix", "in": bytes_json(&ok), "suffix": [7, 7, 7], "opts": strict, "entry": "validate"}));
+        let _ = long;
+    }
+    // a 64 KiB bare AVP list, and one whose last record overruns
+    let mut list = Vec::new();
+    while list.len() < 65536 {
+        list.extend(enc_avp(&gen_avp(rng, 1017)));
+    }
+    out.emit(json!({"op": "decode_avps", "in": bytes_json(&list), "rdr": "slice"}));
+    list.extend(enc_record(1, 1023, 0, 7, &rng.bytes(100)));
+    out.emit(json!({"op": "decode_avps", "in": bytes_json(&list), "rdr": "slice"}));
 }
